@@ -926,6 +926,20 @@ class FnTranslator(FnEmitter):
                 pl.append(toks)
             parsed.append((lab, pl))
         self.parsed = parsed
+        # typed allocation peephole: result of operator new / malloc that is bitcast to exactly one T* becomes
+        # malloc(sizeof(T) * (size / sizeof(T))) so that the engine creates a typed object (pointer fields stored in
+        # untyped byte arrays lose their provenance and explode the encoding)
+        self.cast_types = {}
+        for lab, pl in parsed:
+            for toks in pl:
+                if len(toks) > 6 and toks[1][1] == '=' and toks[2][1] == 'bitcast' and toks[3][1] == 'i8' and toks[4][1] == '*' and toks[5][0] == 'local':
+                    try:
+                        pp = Parser(self.m, toks, self); pp.i = 3
+                        pp.parse_type(); src = unquote(pp.next()[1]); pp.expect('to'); dt = pp.parse_type()
+                        if dt.kind == 'ptr' and not (dt.elem.kind == 'int' and dt.elem.bits == 8):
+                            self.cast_types.setdefault(src, []).append(dt.elem)
+                    except IRError:
+                        pass
         out = self.body
         # pre-scan phis (need all preds)
         for lab, pl in parsed:
@@ -1276,14 +1290,17 @@ class FnTranslator(FnEmitter):
         if vararg:
             extra = args[nfixed:]
             if extra:
+                allptr = all(a.ty.kind == 'ptr' for a in extra)
                 arr = self.tmp('u64')
-                # declare as array: patch the decl
-                self.decls[-1] = ('u64', '%s[%d]' % (arr, len(extra)))
+                # 8-byte slots; an all-pointer pack is declared as an array of pointers so that the engine keeps
+                # pointer provenance (pointer -> integer -> pointer round trips are opaque to it)
+                self.decls[-1] = ('void *' if allptr else 'u64', '%s[%d]' % (arr, len(extra)))
                 for i, a in enumerate(extra):
-                    if a.ty.kind == 'ptr': pre += '%s[%d] = (u64)%s; ' % (arr, i, self.val(a))
+                    if allptr: pre += '%s[%d] = (void*)%s; ' % (arr, i, self.val(a))
+                    elif a.ty.kind == 'ptr': pre += '%s[%d] = (u64)%s; ' % (arr, i, self.val(a))
                     elif a.ty.kind == 'int': pre += '%s[%d] = (u64)%s; ' % (arr, i, self.val(a))
                     else: raise IRError('vararg of type ' + a.ty.key())
-                argv.append(arr)
+                argv.append('(u64*)' + arr)
             else:
                 argv.append('(u64*)0')
         if direct:
@@ -1304,6 +1321,12 @@ class FnTranslator(FnEmitter):
             want = fty if fty else self.m.types.func(rt, [a.ty for a in args], False)
             fn = '((%s*)%s)' % (E.cty(want), self.val(callee))
         callexpr = '%s(%s)' % (fn, ', '.join(argv))
+        if name in ('_Znwm', '_Znam', 'malloc', '__cxa_allocate_exception') and dest and len(args) == 1:
+            cts = self.cast_types.get(dest, [])
+            keys = {t.key() for t in cts}
+            if len(keys) == 1 and cts[0].kind in ('struct', 'ptr', 'int', 'array') and not (cts[0].kind == 'struct' and cts[0].opaque):
+                T = cts[0]; E.need_def(T)
+                callexpr = '(%s)vf_typed_alloc(malloc(sizeof(%s) * ((u64)%s / sizeof(%s))))' % (E.cty(rt), E.cty(T), argv[0], E.cty(T))
         if rt.kind != 'void':
             d = self.declare(dest, rt) if dest else None
             stmt = pre + ('%s = %s;' % (d, callexpr) if d else '(void)%s;' % callexpr)
@@ -1435,6 +1458,12 @@ void vf_resume(void *obj);
 void vf_unreachable(void);
 void vf_trap(void);
 void *vf_alloca(u64 n);
+void *malloc(u64);
+#ifdef __CPROVER__
+#define vf_typed_alloc(p) (p)
+#else
+void *vf_typed_alloc(void *p);
+#endif
 void vf_va_start(void *ap, u64 *va);
 void *vf_memcpy(void *d, const void *s, u64 n);
 void *vf_memmove(void *d, const void *s, u64 n);
